@@ -109,6 +109,13 @@ def gen_streams(rng, quick):
     zl += zl[10:30]
     out.append(("zoned-shuffled", zl, "\n", True))
     out.append(("zoned-descending", sorted(zl, key=lambda x: x.split()[1], reverse=True), "\n", True))
+    # input formats without a literal character (the scanner counts digits instead of searching for a needle): many value-carrying lines in a
+    # row, with other digit runs on the lines
+    dl = []
+    for i in range(700):
+        v = "2012%02d%02d" % (1 + i % 12, 1 + (i * 7) % 28)
+        dl.append(rng.choice(["rec ts %s x", "%s", "n=%d ts %%s" % (i % 100), "ts %%s id %d" % i, "a %s b", "(%s)"]) % v if i % 11 else "no value on line %d" % i)
+    out.append(("digits-700", dl, "\n", True))
     # around the 16 MiB window: 9000 lines of 2100 bytes is more than the window before the line limit
     out.append(("window-17MiB", ["2012-03-04 " + "z" * 2089 for _ in range(8500)], "\n", True))
     return out
@@ -126,7 +133,8 @@ def real_scale(rep, b, tier, rng):
         distinct = sorted(set(ls))
         ztools = [("dconv", ["-S", "-z", "Europe/Berlin", "-f", "%FT%T"]), ("dadd", ["-S", "-z", "America/New_York", "+1h"]),
                   ("dround", ["-S", "--from-zone", "Australia/Sydney", "/1h"])]
-        for tname, targs in ztools if name.startswith("zoned") else tools if tier != "quick" or name.startswith(("lines-1638", "small", "window", "one", "empty")) else tools[:1]:
+        dtools = [("dconv", ["-S", "-i", "%Y%m%d", "-f", "%F"]), ("dadd", ["-S", "-i", "%Y%m%d", "+1d"]), ("dround", ["-S", "-i", "%Y%m%d", "-f", "%F", "Mon"])]
+        for tname, targs in ztools if name.startswith("zoned") else dtools if name.startswith("digits") else tools if tier != "quick" or name.startswith(("lines-1638", "small", "window", "one", "empty")) else tools[:1]:
             tool = b.tool(tname)
             # the per-line function: the tool's own result on each distinct line alone (arguments do not go through the reader)
             single = {}
